@@ -7,6 +7,10 @@ CONSTANTS
   MaxDstFrag = 1
   MaxQ = 0
   Ops = {"read", "length", "argv", "arrmsg", "memchr", "memfcn", "memstr", "memtok", "wide"}
+  EmptyBases = {"slice", "foreign"}
+  ForeignBytes = {255}
+  ArrKinds = {"exact", "shared", "roomy"}
+  MaxFail = 3
 VIEW View
 ACTION_CONSTRAINT Emit
 CHECK_DEADLOCK FALSE
